@@ -13,6 +13,8 @@ from nextline.spawned.types import TraceArgs, TraceCallInfo, TraceFunction
 from nextline.spawned.utils import WithContext
 from nextline.types import TraceCallNo, TraceNo
 
+from . import global_
+
 
 class LocalTraceFunc:
     '''A plugin that executes local trace functions.
@@ -41,10 +43,15 @@ class LocalTraceFunc:
     @hookimpl
     def clean_exception(self, exc: BaseException) -> None:
         if exc.__traceback__ and isinstance(exc, KeyboardInterrupt):
+            # Cut the traceback where the trace function is entered: at a
+            # "line", "return", or "exception" event, the interpreter calls the
+            # local trace function in WithContext; at a "call" event, it calls
+            # the global trace function in global_, which calls the former.
+            entries = (WithContext.__module__, global_.__name__)
             tb = exc.__traceback__
             while tb.tb_next:
                 module = tb.tb_next.tb_frame.f_globals.get('__name__')
-                if module == WithContext.__module__:
+                if module in entries:
                     tb.tb_next = None
                     break
                 tb = tb.tb_next
